@@ -1459,6 +1459,10 @@ class AttrParser(BaseParser):
         if isinstance(type, AnyFloat):
             if is_hexadecimal_token:
                 assert isinstance(value, int)
+                if value.bit_length() > 8 * type.compile_time_size:
+                    self.raise_error(
+                        f"hexadecimal float constant out of range for type {type}"
+                    )
                 raw = value.to_bytes(type.compile_time_size, "little")
                 return FloatAttr(next(type.iter_unpack(raw)), type)
             return FloatAttr(float(value), type)
